@@ -1595,7 +1595,15 @@ class Interp:
     def _const_obj(self, node, scope):
         """Value of a constant expression that may contain re.compile(<constants>) inside tuples / lists / dicts."""
         if isinstance(node, ast.Call) and _text(node.func) == 're.compile' and node.args and not node.keywords:
-            cargs = [self.model.eval_const(scope, a) for a in node.args]
+            def flag(a):
+                # re.I | re.S
+                if isinstance(a, ast.Attribute) and _text(a.value) == 're' and a.attr.isupper() and isinstance(getattr(_re_mod, a.attr, None), int):
+                    return int(getattr(_re_mod, a.attr))
+                if isinstance(a, ast.BinOp) and isinstance(a.op, ast.BitOr):
+                    l, r = flag(a.left), flag(a.right)
+                    return (l | r) if isinstance(l, int) and isinstance(r, int) else None
+                return None
+            cargs = [flag(a) if flag(a) is not None else self.model.eval_const(scope, a) for a in node.args]
             if isinstance(cargs[0], str) and all(isinstance(a, (str, int)) and not isinstance(a, bool) for a in cargs):
                 try:
                     return _re_mod.compile(*cargs)
